@@ -1,4 +1,5 @@
 import CvProps.RealInst
+import CvModel.Objects
 /-!
 # C20, second file — components switched off and on by script (`cv colvar <name> cvcflags`), model `CvModel/Combine.lean`
 
@@ -99,5 +100,124 @@ theorem flags_total_force_inverse (cs : Comps ℝ) (F : ℝ) (hn : activeNorm cs
       obtain ⟨cc, cb⟩ := c
       cases cb <;> simp <;> ring
   exact key cs
+
+
+/-! ## objects deleted by script (`cv colvar <name> delete`, `cv bias <name> delete`), model `CvModel/Objects.lean` -/
+section objects
+open Cv.Objects
+
+
+theorem deleteBias_refs_lt (o : Objs) (v b : String) (hb : b ∈ o.refs v) :
+    ((deleteBias o b).refs v).length < (o.refs v).length := by
+  show ((o.refs v).filter (· != b)).length < (o.refs v).length
+  apply List.length_filter_lt_length_iff_exists.mpr
+  exact ⟨b, hb, by simp⟩
+
+/-- the destructor's loop ends: with as many rounds as there are registered biases the back-reference list is empty -/
+theorem delLoop_clears : ∀ (n : Nat) (o : Objs) (v : String), (o.refs v).length ≤ n → (delLoop n o v).refs v = []
+  | 0, o, v, h => by
+    have : (o.refs v).length = 0 := by omega
+    simpa [delLoop] using List.length_eq_zero_iff.mp this
+  | n + 1, o, v, h => by
+    unfold delLoop
+    cases hl : (o.refs v).getLast? with
+    | none => simpa using List.getLast?_eq_none_iff.mp hl
+    | some b =>
+      have hb : b ∈ o.refs v := List.mem_of_getLast? hl
+      have := deleteBias_refs_lt o v b hb
+      exact delLoop_clears n (deleteBias o b) v (by omega)
+
+theorem deleteBias_registered (o : Objs) (v b : String) (h : Registered o v) : Registered (deleteBias o b) v := by
+  intro p hp hv
+  have hp' := List.mem_filter.mp hp
+  exact List.mem_filter.mpr ⟨h p hp'.1 hv, hp'.2⟩
+
+theorem delLoop_registered : ∀ (n : Nat) (o : Objs) (v : String), Registered o v → Registered (delLoop n o v) v
+  | 0, _, _, h => h
+  | n + 1, o, v, h => by
+    unfold delLoop
+    cases (o.refs v).getLast? with
+    | none => exact h
+    | some b => exact delLoop_registered n _ v (deleteBias_registered o v b h)
+
+/-- a bias not registered with the variable survives the loop, with its configuration -/
+theorem delLoop_keeps : ∀ (n : Nat) (o : Objs) (v : String) (p : String × List String),
+    p ∈ o.biases → p.1 ∉ o.refs v → p ∈ (delLoop n o v).biases
+  | 0, _, _, _, hp, _ => hp
+  | n + 1, o, v, p, hp, hn => by
+    unfold delLoop
+    cases hl : (o.refs v).getLast? with
+    | none => exact hp
+    | some b =>
+      have hb : b ∈ o.refs v := List.mem_of_getLast? hl
+      have hne : p.1 ≠ b := fun e => hn (e ▸ hb)
+      apply delLoop_keeps n (deleteBias o b) v p
+      · exact List.mem_filter.mpr ⟨hp, by simpa using hne⟩
+      · intro hm; exact hn (List.mem_filter.mp hm).1
+
+/-- nothing is created: what is left after the loop was there before -/
+theorem delLoop_subset : ∀ (n : Nat) (o : Objs) (v : String) (p : String × List String),
+    p ∈ (delLoop n o v).biases → p ∈ o.biases
+  | 0, _, _, _, hp => hp
+  | n + 1, o, v, p, hp => by
+    unfold delLoop at hp
+    cases hl : (o.refs v).getLast? with
+    | none => simpa [hl] using hp
+    | some b =>
+      rw [hl] at hp
+      exact (List.mem_filter.mp (delLoop_subset n (deleteBias o b) v p hp)).1
+
+theorem ofConfig_registered (vars : List String) (biases : List (String × List String)) (v : String) :
+    Registered (ofConfig vars biases) v := by
+  intro p hp hv
+  show p.1 ∈ (biases.filter (fun p => p.2.contains v)).map (·.1)
+  exact List.mem_map.mpr ⟨p, List.mem_filter.mpr ⟨hp, by simpa using hv⟩, rfl⟩
+
+/-- **deleting a variable** (any number of dependent biases): the variable is gone, no remaining bias depends on it, every bias
+    that was not registered with it is still there unchanged, nothing new appears, and the other variables are untouched. -/
+theorem delete_variable (o : Objs) (v : String) (h : Registered o v) :
+    v ∉ (deleteVar o v).vars ∧
+    (∀ p ∈ (deleteVar o v).biases, v ∉ p.2) ∧
+    (∀ p ∈ o.biases, p.1 ∉ o.refs v → p ∈ (deleteVar o v).biases) ∧
+    (∀ p ∈ (deleteVar o v).biases, p ∈ o.biases) ∧
+    (∀ w, w ≠ v → (w ∈ (deleteVar o v).vars ↔ w ∈ (delLoop (o.refs v).length o v).vars)) := by
+  refine ⟨?_, ?_, ?_, ?_, ?_⟩
+  · intro hm
+    have := (List.mem_filter.mp hm).2
+    simp at this
+  · intro p hp hv
+    have hr := delLoop_registered (o.refs v).length o v h p hp hv
+    rw [delLoop_clears (o.refs v).length o v (Nat.le_refl _)] at hr
+    simp at hr
+  · intro p hp hn
+    exact delLoop_keeps _ o v p hp hn
+  · intro p hp
+    exact delLoop_subset _ o v p hp
+  · intro w hw
+    show w ∈ List.filter (· != v) _ ↔ _
+    rw [List.mem_filter]
+    simp [hw]
+
+theorem deleteBias_vars (o : Objs) (b : String) : (deleteBias o b).vars = o.vars := rfl
+
+theorem delLoop_vars : ∀ (n : Nat) (o : Objs) (v : String), (delLoop n o v).vars = o.vars
+  | 0, _, _ => rfl
+  | n + 1, o, v => by
+    unfold delLoop
+    cases (o.refs v).getLast? with
+    | none => rfl
+    | some b => exact delLoop_vars n (deleteBias o b) v
+
+/-- the list of variables after deleting one is the old list without it, in the same order -/
+theorem delete_variable_vars (o : Objs) (v : String) : (deleteVar o v).vars = o.vars.filter (· != v) := by
+  show List.filter _ (delLoop _ o v).vars = _
+  rw [delLoop_vars]
+
+example : ((deleteVar (ofConfig ["d", "z", "v"] [("h", ["d", "z"]), ("hs", ["z"]), ("k", ["d"])]) "z").vars,
+    (deleteVar (ofConfig ["d", "z", "v"] [("h", ["d", "z"]), ("hs", ["z"]), ("k", ["d"])]) "z").biases) =
+    (["d", "v"], [("k", ["d"])]) := by decide
+
+
+end objects
 
 end Cv.C20
